@@ -623,6 +623,37 @@ def gen_xfer_cases(chk, scale=1):
                 rng.shuffle(again)
                 arr += [(1, 0, dix) for dix in again]
             cases.append(([xfer], arr, 'duplicates'))
+    # a (peer, id) key REUSED after its transfer completed (the sending node restarted and its ids begin at 0
+    # again): a different bundle of the same total length, or of another length, in order and permuted,
+    # interleaved with other keys.  Each transfer INSTANCE must yield exactly one intact copy of ITS bundle.
+    for nseg in (2, 3, 4):
+        for rep in range((3 if quick else 12) * scale):
+            first = pick_xfer(rng, nseg, xid=rng.choice([0, 0, 1, 300]))
+            (mtu, xid, _seed, length) = first
+            if rep % 3 == 2:
+                while True:   # another total length under the same id
+                    second = pick_xfer(rng, rng.choice([2, 3]), xid=xid)
+                    if second[3] != length:
+                        break
+            else:
+                second = (mtu, xid, rng.randrange(1, 2 ** 31), length)
+            other = pick_xfer(rng, 2, xid=xid + 1)
+            xfers = [first, second, other]
+            counts = [len(real_send(m, x, gen_data(sd, ln))[0]) for (m, x, sd, ln) in xfers]
+            for trial in range(2 if quick else 4):
+                arr = []
+                rounds = [0, 1] if trial % 2 == 0 else [0, 1, 0]     # ... and the first bundle once more
+                for tix in rounds:
+                    order = list(range(counts[tix]))
+                    if trial > 0 or rep % 2 == 1:
+                        rng.shuffle(order)
+                    arr += [(1, tix, dix) for dix in order]
+                # other keys anywhere in between: same id from peer 2 (first bundle), another id from peer 1
+                extra = [(2, 0, dix) for dix in range(counts[0])] + [(1, 2, dix) for dix in range(counts[2])]
+                rng.shuffle(extra)
+                for item in extra:
+                    arr.insert(rng.randrange(len(arr) + 1), item)
+                cases.append((xfers, arr, 'key-reuse'))
     # a segment missing altogether: nothing may be queued
     for nseg in (2, 3, 5):
         for rep in range((2 if quick else 10) * scale):
@@ -886,7 +917,7 @@ def run_all(chk):
         order = [dix for (_p, _t, dix) in arrival]
         chk.case(('xfers', tuple(xfers), tuple(arrival)), nontrivial=(order != sorted(order) or kind != 'perm'),
                  sample=samp(chk, 5, dict(suite='recv', kind=kind, transfers=[list(x) for x in xfers], arrival=[list(a) for a in arrival],
-                                          finished_counts=[n for (n, _r) in obs['trace']])) if kind in ('interleaved', 'duplicates') and len(arrival) <= 12 else None)
+                                          finished_counts=[n for (n, _r) in obs['trace']])) if kind in ('interleaved', 'duplicates', 'key-reuse') and len(arrival) <= 12 else None)
         chk.count('recv_kind', kind)
         chk.count('recv_arrivals', len(arrival) if len(arrival) <= 5 else ('6-12' if len(arrival) <= 12 else '>12'))
     run.phase('xfers:real(%d)' % len(xfer_cases))
@@ -1064,7 +1095,8 @@ def main():
               '(3+|id|+3|total| >= mtu with a bundle that does not fit) are never run; recv: the real sender\'s datagrams through the '
               'real receive function in all permutations for 1-5 segments, random orders for 6-20, interleaved with a second transfer '
               'and the same id from two other peers, with duplicates before/after completion and the whole set twice, with a segment '
-              'missing; multi: concatenations of segment / bundle / other extension-map messages with zero padding (and octets after '
+              'missing, and with a (peer, id) key reused after completion by a different bundle of the same / another total length '
+              '(in order and permuted, interleaved with other keys; judged per transfer instance); multi: concatenations of segment / bundle / other extension-map messages with zero padding (and octets after '
               'it); crafted: inconsistent totals, out-of-range and overlapping segments, DTLS/BPv6/unknown first octets, truncation, '
               'duplicate keys, non-shortest heads.  Non-trivial: send case with >= 2 datagrams; recv case whose arrival order is not '
               'the index order or that has duplicates / interleaving / a missing segment; multi case with more than one message or '
